@@ -208,6 +208,46 @@ pub fn run(rep: &mut Report, thorough: bool) {
         &mut rep.sink,
     );
     rep.stage("udp-ports", "UDP payloads x {v4,v6} x 4 port sweeps x 65536 points", product(&dims), t0);
+    // soak: 70 000 datagrams into ONE responder process (round robin over the payloads, running
+    // source ports, alternating IP version): every canonical answer still equals the reference
+    {
+        let t0 = std::time::Instant::now();
+        let n = 70_000u64;
+        let np = udp_sel.len() as u64;
+        let mk = |k: u64| flow(k & 1 == 1, (k.wrapping_mul(7) + 1024) as u16, (k % 5000) as u16 + 1);
+        let cmds: Vec<Cmd> = (0..n).map(|k| Cmd::Frame(mk(k).udp(&udp_sel[(k % np) as usize].bytes))).collect();
+        let opts = RunOpts::new("udp-soak").stateful().chunk(1).no_monitor();
+        let cfgc = cfg.clone();
+        engine::run(
+            &cfg,
+            1,
+            &opts,
+            |_| cmds.clone(),
+            |it: &Item, sk: &mut Sink| {
+                sk.count("frames", n);
+                for k in 0..n {
+                    let p = udp_sel[(k % np) as usize];
+                    let o = &it.outs[k as usize + (it.outs.len() - n as usize)];
+                    let got = canon_checked(p.name, &p.bytes, o.reply.as_deref(), &ctx_of(&mk(k), false));
+                    let want = &refs[&(p.name.to_string(), false)];
+                    if !same(&got, want) {
+                        sk.violation(Violation {
+                            prop: "C19".into(),
+                            key: format!("history-dependence:udp:{}", p.name),
+                            what: format!("payload '{}' as datagram number {} of one responder process: canonical reply {} differs from the reference run {}", p.name, k + 1, got, want),
+                            cfg: cfgc.clone(),
+                            cmds: it.cmds[..=(k as usize + (it.cmds.len() - n as usize))].to_vec(),
+                            idx: k,
+                            stage: "udp-soak".into(),
+                        });
+                        break;
+                    }
+                }
+            },
+            &mut rep.sink,
+        );
+        rep.stage("udp-soak", "70 000 datagrams (round robin over the selected payloads, running ports, alternating IP version) into one responder process: every canonical answer equals the reference", n, t0);
+    }
     // reply-size classes: DNS queries whose answers grow from a few bytes to several kilobytes
     // (n questions for the root name, n = 1..150; k questions for 249-byte names, k = 1..6): the
     // same query over IPv4 / IPv6 and from / to other ports gets the same canonical answer
